@@ -34,6 +34,9 @@ PANEL = [
      {'element': 'note', 'value': None, 'attrs': {'print_object': 'no'}, 'children': [['rest', None], ['duration', 2]]}),
     ({'element': 'pitch', 'value': None, 'attrs': {}, 'children': [['step', 'C'], ['octave', 4]]},
      {'element': 'pitch', 'value': None, 'attrs': {}, 'children': [['step', 'D'], ['alter', 1], ['octave', 5]]}),
+    # B omits a schema-required attribute: its solo result is the required-attribute exception
+    ({'element': 'tie', 'value': None, 'attrs': {'type': 'start'}},
+     {'element': 'tie', 'value': None, 'attrs': {}}),
     ({'element': 'accent', 'value': None, 'attrs': {'placement': 'above'}},
      {'element': 'staccato', 'value': None, 'attrs': {'placement': 'below', 'color': '#000000'}}),
 ]
@@ -73,7 +76,10 @@ def draw_workload(data, el):
     if tt is not None:
         w['value'] = driver.stub_value(el)
     attrs = c14.usable_attrs(t)
+    drop_required = data.draw(st.integers(0, 3)) == 0     # an invalid workload: the expected result is an exception
     for a in attrs:
+        if a['required'] and drop_required:
+            continue
         if a['required'] or (len(w['attrs']) < 3 and data.draw(st.integers(0, 3)) == 0):
             txt = a['fixed'] or data.draw(st.sampled_from(lexical.valid_texts(a['type'])))
             ok, pv = lexical.python_value_for(a['type'], txt)
